@@ -61,3 +61,32 @@ Print Assumptions c03_unescape_multi_step.
 Theorem c03_decode_once : unescape false [37; 50; 53; 50; 48] = Some [37; 50; 48].
 Proof. exact decode_once. Qed.
 Print Assumptions c03_decode_once.
+
+(* ---- without the hypothesis: the routing parser never returns nested variables, whatever the text (a property of the
+   tokenizer, carried through the descent and through the verb cut) ---- *)
+From GB Require Import Proofs.GwNoNestProofs.
+Theorem c03_no_nesting : forall s t, gw_parse false s = Some t -> forallb seg_ok (t_segs t) = true.
+Proof. exact gw_parse_no_nesting. Qed.
+Print Assumptions c03_no_nesting.
+
+(* hence every route the router can hold - compiled from ANY accepted template text - matches exactly like its template *)
+Theorem c03_route_step_any_text : forall text t comps, gw_parse false text = Some t ->
+  route_step false (compile t) (t_verb t) comps = spec_step t comps.
+Proof. exact route_step_any_text. Qed.
+Print Assumptions c03_route_step_any_text.
+
+(* and the whole table, built from any descriptions (any texts, valid or not, any methods), answers every request like
+   the specification: first matching binding in (target, binding) order, the template-level captures *)
+Theorem c03_route_table_spec : forall targets method comps,
+  first_route false (table_routes targets method) comps = spec_route (spec_routes targets method) comps.
+Proof. exact route_table_spec. Qed.
+Print Assumptions c03_route_table_spec.
+
+(* the model of RouteHTTP equals the executable statement of the property on EVERY input *)
+Theorem c03_model_is_spec : forall v,
+  run_c03 v = match as_S (nthv 3 v) with
+              | c :: p => if (c =? c_slash)%N then spec_route (spec_routes (as_L (nthv 0 v)) (as_S (nthv 1 v))) (split_slash p [])
+                          else VL [VN 3]
+              | [] => VL [VN 3] end.
+Proof. exact run_c03_is_spec. Qed.
+Print Assumptions c03_model_is_spec.
